@@ -12,7 +12,13 @@ import (
 
 // C34: lifecycle calls on one real node.
 
-func c34Call(n *testNode, op string) string {
+func c34Call(n *testNode, op string) (res string) {
+	// a panic inside a lifecycle call (e.g. memberlist's "leave after shutdown") is reported as the call's result
+	defer func() {
+		if r := recover(); r != nil {
+			res = "panic-" + strings.ReplaceAll(fmt.Sprint(r), " ", "-")
+		}
+	}()
 	switch op {
 	case "leave":
 		if err := n.S.Leave(); err != nil {
@@ -65,6 +71,7 @@ func c34Gen(rng *rand.Rand, tier string) []Case {
 		}
 	}
 	rec(nil)
+	out = append(out, Case{ID: "join-during-leave", Ops: []string{"joinduringleave"}, Nontrivial: true, Tags: []string{"directed"}})
 	for i := 0; i < nConc; i++ {
 		k := 2 + rng.Intn(3)
 		var cs []string
@@ -74,6 +81,32 @@ func c34Gen(rng *rand.Rand, tier string) []Case {
 		out = append(out, Case{ID: fmt.Sprintf("c%d", i), Ops: []string{"conc " + strings.Join(cs, " ")}, Nontrivial: true, Tags: []string{"concurrent"}})
 	}
 	return out
+}
+
+// c34JoinDuringLeave: a Leave with a long propagate delay is started, and as soon as State() reports
+// `leaving` a Join is attempted: the leave has begun, so the join must be refused.
+func c34JoinDuringLeave() string {
+	n, err := newTestNode(func(c *serf.Config) {
+		c.BroadcastTimeout = 5 * time.Millisecond
+		c.LeavePropagateDelay = 400 * time.Millisecond
+	})
+	if err != nil {
+		return "node-error"
+	}
+	defer n.Close()
+	done := make(chan struct{})
+	go func() { _ = n.S.Leave(); close(done) }()
+	deadline := time.Now().Add(5 * time.Second)
+	for n.S.State() != serf.SerfLeaving && time.Now().Before(deadline) {
+		time.Sleep(time.Millisecond)
+	}
+	if n.S.State() != serf.SerfLeaving {
+		<-done
+		return "leaving-not-observed"
+	}
+	res := c34Call(n, "join")
+	<-done
+	return res + " " + n.S.State().String()
 }
 
 func c34Exec(ops []string) []string {
@@ -130,6 +163,10 @@ func c34Exec(ops []string) []string {
 			close(stop)
 			ow.Wait()
 			outs = append(outs, "obs "+strings.Join(samples, ",")+"|"+strings.Join(results, ","))
+			continue
+		}
+		if len(f) == 1 && f[0] == "joinduringleave" {
+			outs = append(outs, c34JoinDuringLeave())
 			continue
 		}
 		if len(f) == 1 {
